@@ -56,6 +56,12 @@ REQS: dict[str, dict[str, Any]] = {
 }
 
 
+# a negative response naming the request's service with a response code ISO reserves (no member of UDSErrorCodes):
+# not a reply gallia can attribute - the unchanged client refuses it as a mismatch
+for _r in REQS.values():
+    _r["mismatch"] += [bytes([0x7F, _r["sid"], 0x7A]), bytes([0x7F, _r["sid"], 0x05])]
+
+
 def make_request(kind: str) -> service.UDSRequest:
     if kind == "rdbi":
         return service.ReadDataByIdentifierRequest(0xF190)
@@ -211,12 +217,12 @@ def classify(plan: dict[str, Any], data: bytes) -> str:
         return "busy"
     if data == bytes([0x7F, sid, 0x78]):
         return "pending"
-    if len(data) == 3 and data[0] == 0x7F and data[1] == sid:
-        return "neg_final"
     if data in r["mismatch"]:
         return "mismatch"
     if data in r["malformed"]:
         return "malformed"
+    if len(data) == 3 and data[0] == 0x7F and data[1] == sid:
+        return "neg_final"
     return "unknown"
 
 
@@ -476,6 +482,9 @@ class C04(Check):
         plan["max_retry"] = rng.choice([0, 0, 1, 2, 3])
         plan["cfg_max_retry"] = rng.choice([None, None, 0, 1, 2, 3])
         plan["cfg_timeout"] = rng.choice([None, None, None, 0.2, 1.0, 30.0])
+        r_ = rng.random()
+        plan["ctor"] = {"T": rng.choice([0.1, 0.5, 2.0, 25.0]), "max_retry": rng.choice([0, 1, 3])} if r_ < 0.2 else None
+        plan["no_cfg"] = rng.random() < 0.5
         mr, T = eff(plan)
         d_classes = [0.0, 0.001, 0.02, max(T - 0.05, 0.01), T + 0.05, 0.4, 0.6]
         if index < self.strata(tier):
@@ -537,6 +546,10 @@ class C04(Check):
             p = copy.deepcopy(plan)
             p["client"] = "UDSClient"
             yield p
+        if plan.get("ctor"):
+            p = copy.deepcopy(plan)
+            p["ctor"] = None
+            yield p
         if plan.get("cfg_max_retry") is not None and plan["cfg_max_retry"] == plan["max_retry"]:
             p = copy.deepcopy(plan)
             p["cfg_max_retry"] = None
@@ -593,13 +606,24 @@ class C04(Check):
 
                 net._connect = planned_connect  # type: ignore[method-assign]
             holder["rec"] = rec
+            # the client may have been built with other values and re-configured afterwards (scanners assign
+            # `ecu.max_retry` / `ecu.timeout` after construction): what counts is the value at the time of the request
+            ctor = plan.get("ctor") or {}
+            ctor_T = ctor.get("T", plan["T"])
+            ctor_mr = ctor.get("max_retry", plan["max_retry"])
             if plan["client"] == "ECU":
-                client: Any = ECU(transport, timeout=plan["T"], max_retry=plan["max_retry"])
+                client: Any = ECU(transport, timeout=ctor_T, max_retry=ctor_mr)
             else:
-                client = UDSClient(transport, timeout=plan["T"], max_retry=plan["max_retry"])
+                client = UDSClient(transport, timeout=ctor_T, max_retry=ctor_mr)
+            if ctor:
+                client.timeout = plan["T"]
+                client.max_retry = plan["max_retry"]
             rec.rec("call")
             try:
-                resp = await client.request(req, cfg)
+                if plan.get("no_cfg") and plan.get("cfg_max_retry") is None and plan.get("cfg_timeout") is None:
+                    resp = await client.request(req)
+                else:
+                    resp = await client.request(req, cfg)
             except Exception as e:  # noqa: BLE001
                 rec.rec("raise", error=type(e).__name__)
                 return ("raise", exc_tag(e))
